@@ -360,15 +360,26 @@ def run_case(case):
             # nothing: the build directory then consistently describes the old configuration,
             # and staying there is right.  Only once .bfg_environ holds the new configuration
             # must the build files follow it.
-            env_state = state_of(after_aux.get('.bfg_environ'), old_aux.get('.bfg_environ'),
-                                 good_aux.get('.bfg_environ'))
+            def conf(raw):
+                # the saved configuration without the recorded process environment (the
+                # fault-injection switches of this harness are in there and differ per run)
+                try:
+                    d = json.loads(raw.decode('utf-8'))
+                    d['data'].pop('variables', None)
+                    return json.dumps(d, sort_keys=True).encode()
+                except Exception:
+                    return raw
+            env_state = state_of(conf(after_aux.get('.bfg_environ')) if
+                                 after_aux.get('.bfg_environ') else after_aux.get('.bfg_environ'),
+                                 conf(old_aux.get('.bfg_environ') or b''),
+                                 conf(good_aux.get('.bfg_environ') or b''))
             st['environ'] = env_state
             for attempt in (1, 2):
                 rc, out = w.backend_run()
                 res.ev('followups:judged')
                 now = w.files()
                 if scenario == 'reconfigure' and rc == 0 and now == old and \
-                   env_state != 'new' and w.aux().get('.bfg_environ') != good_aux.get('.bfg_environ'):
+                   env_state == 'old':
                     res.ev('reconfigure:died-before-saving-the-configuration')
                     return st
                 if rc == 0 and now != good:
